@@ -1093,6 +1093,8 @@ def run(chk: Check) -> None:
     optional_groups_rule(chk, "C15-D2j", ("yamlpath/common/nodes.py",
                                           "yamlpath/common/parsers.py",
                                           "yamlpath/processor.py"), 1)
+    from rules.shared import match_result_deref_rule
+    match_result_deref_rule(chk, "C15-D2m", cl, floor=40)
     from rules.shared import implicit_ordering_rule
     implicit_ordering_rule(chk, "C15-D2g", [
         f for f in cl if not f.short.startswith(C14_OWNED_PREFIX)], 40)
